@@ -94,6 +94,24 @@ def run(chk, prog):
                             derived=show(other)[:200], expected="tr.get_choices().filter(~self.selection)", where=where)
                 chk.require(k != tr[2][0], "KEY-LINEAR", f"{inst}/{arm}/keys", "algorithm key differs from simulate key", derived=show(k), expected="distinct", where=where)
                 chk.note("algorithm arm: the weight handed to estimate_reciprocal_normalizing_constant is recorded, not judged: " + show(w_in)[:160])
+                # What comes back must estimate log p(selected).  Degenerate case as the witness: with EVERYTHING selected there are no latents, every particle
+                # of the conditional run has weight log p(selected), so log Z^ = logsumexp(weights) - log K = log p(selected) exactly, and the returned weight must
+                # be that.  The returned weight is a linear combination  a * log Z^ + b * (retained particle's score) + ...; in the degenerate case the
+                # retained score is log p(selected) as well, so a + b must be 1 (joint - posterior estimate and log Z^ itself both satisfy it).
+                evs = Evaluator(prog)
+                evs.opaque_methods |= {"run_csmc", "importance", "get_particle", "get_log_weights", "get_particles", "filter_to_unconstrained"}
+                evs.opaque_funcs |= {"stack_to_first_dim", "logsumexp"}
+                CT = prog.cls("ChangeTarget", "inference/smc.py")
+                rn = evs.eval_fn(CT.methods["run_csmc_for_normalizing_constant"], CT.module, CT)
+                f_ = lin(rn.ret)
+                lse = [m_ for m_ in f_ if len(m_) == 1 and is_call(next(iter(m_)), "logsumexp")]
+                rsc = [m_ for m_ in f_ if len(m_) == 1 and is_mcall(next(iter(m_)), "get_score")]
+                a_ = sum(f_[m_] for m_ in lse)
+                b_ = sum(f_[m_] for m_ in rsc)
+                direct = True  # `w` IS the returned weight of this arm (leaf[1][0])
+                chk.require(bool(lse) and direct and a_ + b_ == 1, "WEIGHT-INF", f"{inst}/{arm}/returned-weight", "weight returned on the algorithm path",
+                            derived=f"run_csmc_for_normalizing_constant returns {show_lin(f_)[:200]} and Marginal.random_weighted returns it unchanged: with everything selected this is {a_ + b_} * log p(selected)",
+                            expected="an estimate of log p(selected): exactly log p(selected) when nothing is latent (log Z^, or joint score - posterior-density estimate)", where=where)
     # ---- estimate_logpdf
     ci, fn = prog.method("Marginal", "estimate_logpdf", MOD)
     where = chk.where(ci.module, fn)
